@@ -90,10 +90,11 @@ def gen_wellformed(kind: str) -> t.Iterator[t.Tuple[t.Any, t.Callable[[], t.Any]
     elif kind in ("bind_ack", "alter_context_resp"):
         pt = rpc.BIND_ACK if kind == "bind_ack" else rpc.ALTER_CONTEXT_RESP
         cls = R.BindAck if kind == "bind_ack" else R.AlterContextResponse
-        for alen in range(0, 10):
+        NONASCII = ["\u00e9", "p\u00e9", "49\u00e9", "\u20ac1", "\U0001d521", "\\pipe\\donn\u00e9es"]  # UTF-8 lengths 2, 3, 4, 4, 4, 14: every residue mod 4
+        for alen in range(0, 10 + len(NONASCII)):
             for nres in range(0, 7):
                 for tl in TRAILERS:
-                    addr = "4966400000"[:alen]
+                    addr = "4966400000"[:alen] if alen < 10 else NONASCII[alen - 10]
                     res = [((i * 3) % 4, i, (SYNS[i % 4][0], 1 + i, 0)) for i in range(nres)]
                     tr_obj, tr_ref = trailer_pair(R, tl)
                     ref = rpc.enc_ack_like(pt, 7, 7, res, tr_ref, (addr.encode() + b"\x00") if addr else b"", 5840, 4280, 0x4D2)
@@ -114,9 +115,12 @@ def gen_wellformed(kind: str) -> t.Iterator[t.Tuple[t.Any, t.Callable[[], t.Any]
 
                 yield [kind, nv, reason], mk, ref, R._pdu.PDU.unpack
     elif kind in ("request", "response", "fault"):
-        for slen in range(0, 41):
-            for obj in ((None, U2) if kind == "request" else (None,)):
-                for tl in TRAILERS:
+        # (stub length, trailer token length): small ones in full, then fragments whose 16-bit frag_length / auth_length has the top bit set or is maximal
+        sizes = [(sl, tl_) for sl in range(0, 41) for tl_ in TRAILERS]
+        sizes += [(32743, None), (32744, None), (32745, None), (32720, 16), (40000, None), (40000, 16), (65511 - (8 if kind == "fault" else 0), None), (0, 32767), (0, 32768), (8, 40000), (0, 65503 - (8 if kind == "fault" else 0))]
+        for slen, tl in sizes:
+            for obj in ((None, U2) if kind == "request" and slen < 65000 and (tl or 0) < 65000 else (None,)):
+                for _once in (0,):
                     stub = bytes((i * 5 + 2) & 0xFF for i in range(slen))
                     tr_obj, tr_ref = trailer_pair(R, tl)
                     if kind == "request":
